@@ -22,3 +22,11 @@ reg("C01",
     level_text="Every statistic returned by the real accessors on thousands of generated datasets per run is compared with a bin-by-bin float64 evaluation of its published integral; held means: on the executions observed (counts per statistic, grid family, tail side, dtype in the evidence). Exploration is the right level: the property quantifies over all grids/spectra and only executions are observed.",
     level_note="Trusted: numpy, the reference formulas in vf/oracle/integrals.py (written from the definitions in the property text and docs/*.rst, g = 1/0.10194), tolerance 1e-9 (float64) / 2e-5 (float32); ill-conditioned quantities are counted inconclusive. nd=1 is treated with unit direction width as the library documents.",
     rule="case = (frequency-grid family x nf x fmax-side-of-0.333 x direction count/offset/rotation x dtype x leading dims x spectrum class x statistic); distinct = distinct such keys; non-trivial = spectrum has positive energy and the oracle was well conditioned")
+
+reg("C02",
+    technique="runtime monitor: independent peak model (strict interior maxima, parabola vertex, moments at the peak row, Phillips window rules) over recorded accessor results on designed 1-D shapes",
+    level_text="tp/fp (discrete and smooth), dpm, dpspr, dp, alpha and gamma returned by the real accessors are compared per spectrum position with a reference that locates the largest interior strict local maximum itself; shapes are designed to sit on the edges the statement names (peak in bin 1, nf-2, the one-frequency alpha window, flat tops, equal peaks, monotone, edge maxima, zeros). Held = on the executions observed.",
+    level_note="Trusted: numpy, vf/oracle/peaks.py. Frequencies are compared at the float32 resolution the peak ufuncs document; cases whose peak, vertex or window membership is decided by differences within rounding are counted inconclusive.",
+    rule="case = (nf x grid family x nd x dtypes x leading dims x designed 1-D shape x peak position class [x alpha window population]) per statistic; distinct = distinct keys; non-trivial = every case whose oracle was well conditioned",
+    must_observe=["tp", "tp_smooth", "dpm", "dpspr", "dp", "alpha", "gamma"],
+    must_note=["alpha_window_0", "alpha_window_1", "alpha_window_many"])
